@@ -64,13 +64,23 @@ def slices_here(ctx, t, ancestors, nested):
     def gen():
         yield 1
 
+    # Frames are picked relative to the harness's `execute` frame (three frames outward of it at
+    # most): how deep the harness itself is nested below that differs between a batch worker, a
+    # replay and the shrinker, and one tape must mean the same case in all three.
+    base = 0
+    for k, fr in enumerate(T):
+        if fr.f_code.co_name == "execute" and fr.f_code.co_filename.endswith("worker.py"):
+            base = k
+    lowest = max(base - 3, 0)
+    m = n - lowest
+
     for _ in range(8):
         api = t.choose(4)  # 0 StackSlice, 1 extract_since, 2 extract_until int, 3 extract_until frame
-        oi = t.choose(n + 1)
-        ii = t.choose(n + 1)
+        oi = lowest + t.choose(m + 1)
+        ii = lowest + t.choose(m + 1)
         outer = T[oi] if oi < n else None
         inner = T[ii] if ii < n else None
-        lim = t.choose(n + 3)
+        lim = t.choose(m + 3)
         limit = None if lim == 0 else lim
         if outer is not None and inner is not None and oi > ii:
             outer, inner, oi, ii = inner, outer, ii, oi
@@ -119,7 +129,7 @@ def slices_here(ctx, t, ancestors, nested):
                 while fr is not None:
                     reach.append(fr)
                     fr = fr.f_back
-                lf = reach[t.choose(len(reach))]
+                lf = reach[t.choose(min(len(reach), ii - lowest + 1))]
                 li = T.index(lf)
                 ctx.stat("frame_limit")
                 st = stackscope.extract_until(inner, limit=lf, with_contexts=False)
